@@ -1,6 +1,6 @@
 (* C10 tie, part A (centres and normals): the definitions traced from /repo on this run equal the reference model
-   (coq/theories/C10/Model.v) for ALL real inputs, under the property's own guards only (non-zero
-   triangle area; ray not parallel to the plane).  Compiled on every run against Run.GenC10. *)
+   (coq/theories/C10/Model.v) for ALL real inputs, under the property's own guards only (non-zero triangle
+   area; ray not parallel to the plane).  Compiled on every run against Run.GenC10. *)
 From Coq Require Import Reals Lra Bool.
 From OdakV Require Import Base.RealAux Base.Vec3 C10.Model C10.Lemmas.
 From Run Require Import GenC10.
@@ -8,6 +8,29 @@ Open Scope R_scope.
 
 Ltac v3' := repeat progress (unfold vdot, vcross, vadd, vsub, vscale, vx, vy, vz in *; cbn [fst snd] in *).
 Ltac open_model := repeat progress (unfold tri_normal, tri_raw_normal, centroid, plane_dist, hit_point, bary_u, bary_v in *); v3'.
+(* unfold the model down to coordinates but keep the norm |raw| of the triangle at hand as ONE atom N; every sqrt in
+   the traced term must be that same norm (checked by ring on its argument) *)
+Ltac open_with Hn :=
+  open_model;
+  match type of Hn with 0 < ?n =>
+    let N := fresh "N" in
+    set (N := n) in *;
+    repeat match goal with |- context [sqrt ?a] =>
+      replace (sqrt a) with N by (subst N; unfold vnorm, vnorm2; f_equal; v3'; ring) end;
+    clearbody N
+  end.
+Ltac fin := field; repeat split; first [assumption | lra].
+(* boolean hit flag: compare as propositions; every comparison atom of the traced flag is identified with the
+   model's barycentric coordinate it equals (field decides which), whatever the order of the conjuncts *)
+Ltac not_bary X := lazymatch X with bary_u _ _ _ _ => fail | bary_v _ _ _ _ => fail | _ => idtac end.
+Ltac flag_tie t0 t1 t2 pt eqtac :=
+  apply eq_true_iff_eq; unfold inside_flag; rewrite !andb_true_iff, !Rleb_true, !Rltb_true;
+  repeat match goal with
+  | |- context [Rle 0 ?X] => not_bary X;
+      first [ replace X with (bary_u t0 t1 t2 pt) by eqtac | replace X with (bary_v t0 t1 t2 pt) by eqtac ]
+  end;
+  split; intros; repeat split; lra.
+
 
 Section Single.
 Variables t_0_0 t_0_1 t_0_2 t_1_0 t_1_1 t_1_2 t_2_0 t_2_1 t_2_2 : R.
@@ -26,18 +49,9 @@ Lemma norm_pos : 0 < vnorm raw.
 Proof. apply vnorm_pos, vnorm2_pos, nondeg. Qed.
 Lemma gram_pos : 0 < vnorm2 raw.
 Proof. apply vnorm2_pos, nondeg. Qed.
-(* unfold the model down to coordinates but keep |raw| as one atom N; every sqrt in the traced term
-   must be that same norm (checked by ring on its argument) *)
-Ltac open :=
-  pose proof norm_pos as Hn; unfold raw, t0, t1, t2, o, d, p in *; open_model;
-  match type of Hn with 0 < ?n =>
-    let N := fresh "N" in
-    set (N := n) in *;
-    repeat match goal with |- context [sqrt ?a] =>
-      replace (sqrt a) with N by (subst N; unfold vnorm, vnorm2; f_equal; v3'; ring) end;
-    clearbody N
-  end.
-Ltac fin := field; repeat split; first [assumption | lra].
+Lemma gram_open : 0 < vdot (vsub t2 t0) (vsub t2 t0) * vdot (vsub t1 t0) (vsub t1 t0) - vdot (vsub t2 t0) (vsub t1 t0) * vdot (vsub t2 t0) (vsub t1 t0).
+Proof. pose proof gram_pos as G. unfold raw in G. rewrite <- gram_is_area in G. exact G. Qed.
+Ltac open := pose proof norm_pos as Hn; unfold raw, t0, t1, t2, o, d, p in *; open_with Hn.
 
 Lemma t_center_0_ok : t_center_0 t_0_0 t_0_1 t_0_2 t_1_0 t_1_1 t_1_2 t_2_0 t_2_1 t_2_2 = vx (centroid t0 t1 t2).
 Proof. unfold t_center_0. open. field. Qed.
